@@ -272,6 +272,22 @@ impl World for SemWorld {
         if woken.is_empty() && count > 0 && pending > 0 {
             m.push("C07".to_string());
         }
+        // C14: try_acquire is exact (idle probe: only when nobody is registered; restores state)
+        if snap.events[0].0 == 0 && pending == 0 {
+            match self.sref().try_acquire() {
+                Some(g) => {
+                    drop(g);
+                    if count == 0 {
+                        m.push("C14".to_string());
+                    }
+                }
+                None => {
+                    if count > 0 {
+                        m.push("C14".to_string());
+                    }
+                }
+            }
+        }
         // C10: no stale listeners: listeners registered <= pending polled futures
         if snap.events[0].0 > pending {
             m.push("C10".to_string());
